@@ -6,7 +6,8 @@
 From Coq Require Import ZArith QArith Bool List Lia Sorting.Sorted.
 From DC Require Import Model.Base Model.Loc Model.MSpace Model.Solver
                        Proofs.MSpaceDefs Proofs.MSpaceA Proofs.MSpaceB Proofs.MSpaceC
-                       Proofs.SolverA Proofs.SolverB Proofs.SolverC Proofs.SolverD.
+                       Proofs.SolverA Proofs.SolverB Proofs.SolverC Proofs.SolverD
+                       Model.Specs Proofs.SpecsDefs Proofs.Builtins.
 Import ListNotations.
 Open Scope Z_scope.
 
@@ -68,3 +69,41 @@ End AnySpecifications.
 Print Assumptions C02_optimize_keeps_every_constraint.
 Print Assumptions C02_optimize_objective_keeps_every_constraint.
 Print Assumptions C02_direct_optimizers_keep_every_constraint.
+
+
+(* ---- Built-in classes: [sound] is a theorem, not an assumption ----
+   Same instance as in C03.  For every class with the C08 law (all modelled classes except
+   UniquifyAllKmers, AvoidHairpins, HarmonizeRCA) whose localized copies are evaluated by the solver
+   (not skipped as enforced by nucleotide restrictions), [sound] follows from C08, hence: *)
+Theorem C02_builtin_constraints_are_sound :
+  forall (enforced : Specs.spec -> bool) (space : mspace) (n : Z) (c : Specs.spec),
+  b08_class c = true -> wf_spec c n -> b08_side c -> evaluable c n ->
+  (forall w s c', Specs.localized c w true s = LSome c' -> enforced c' = false) ->
+  sound Specs.spec b_ev Specs.localized b_reinit enforced space n c.
+Proof. exact builtin_sound. Qed.
+Print Assumptions C02_builtin_constraints_are_sound.
+
+Theorem C02_builtin_optimize_keeps_every_constraint :
+  forall (enforced : Specs.spec -> bool) (best : Specs.spec -> option Q) (passive : Specs.spec -> bool)
+         (space : mspace) (n : Z),
+    wf_space space -> (forall c, In c (choices_list space) -> cend c <= n) ->
+    forall cfg (cs objs : list Specs.spec) st o st',
+    (forall c, In c cs -> b08_class c = true /\ wf_spec c n /\ b08_side c /\ evaluable c n /\
+                          (forall w s c', Specs.localized c w true s = LSome c' -> enforced c' = false)) ->
+    state_good Specs.spec space n st ->
+    (forall c, In c cs -> passes_c Specs.spec b_ev c (cur _ st)) ->
+    optimize Specs.spec b_ev Specs.localized b_reinit enforced best b_boost passive (fun _ => None)
+             cfg space cs objs st = (o, st') ->
+    forall c, In c cs -> passes_c Specs.spec b_ev c (cur _ st').
+Proof. exact builtin_optimize_keeps_constraints. Qed.
+Print Assumptions C02_builtin_optimize_keeps_every_constraint.
+
+(* classes whose well-formed instances are always evaluable ([evaluable] is then no extra assumption) *)
+Theorem C02_wellformed_instances_are_evaluable : forall sp n,
+  match sp with
+  | SAvoidPattern _ _ | SPatternOcc _ _ _ | SGC _ _ _ _ | SEnforceSequence _ _ | SEnforceChoice _ _
+  | SAvoidChanges _ _ _ _ | SLength _ _ => True
+  | _ => False
+  end -> wf_spec sp n -> evaluable sp n.
+Proof. exact wf_evaluable. Qed.
+Print Assumptions C02_wellformed_instances_are_evaluable.
